@@ -40,6 +40,13 @@ impl Vm {
                         self.ip,
                         self.acc.clone(),
                     ));
+                    // Abandon the failed evaluation's frames so that they are neither
+                    // roots nor part of a later stack trace.
+                    self.stack.clear();
+                    *self.stack.get_sp_mut() = 0;
+                    self.bp = 0;
+                    self.ep = usize::MAX;
+                    self.acc = VCell::undefined();
                     return Err(e);
                 }
             }
